@@ -219,7 +219,7 @@ def _real_dump(path, group):
 
 def _cases(tier):
     out = []
-    base = [dict(n=2, K=2, m=2)] if tier == "quick" else [dict(n=2, K=2, m=2), dict(n=3, K=3, m=2), dict(n=2, K=3, m=3)]
+    base = [dict(n=2, K=2, m=2)] if tier == "quick" else [dict(n=2, K=2, m=2), dict(n=3, K=3, m=2), dict(n=2, K=3, m=3), dict(n=3, K=4, m=3)]
     for b in base:
         for producer in ("ordered", "unordered"):
             for iterfault in (False, True):
